@@ -13,6 +13,8 @@ def plan(quick):
         {"proto": "frost-refresh", "n": 3, "t": 1, "kinds": ["fault", "hdr"], "alts": STRUCT, "limit": 250 if quick else None},
         {"proto": "xor", "n": 3, "t": 0, "kinds": ["fault", "hdr"], "alts": STRUCT},
         {"proto": "toy:b,bm,b", "n": 3, "t": 1, "kinds": ["hdr"], "limit": 150 if quick else None},
+        {"proto": "doerner-keygen", "n": 2, "t": 1, "kinds": ["fault", "hdr"], "alts": STRUCT, "limit": 250 if quick else None},
+        {"proto": "doerner-sign", "n": 2, "t": 1, "kinds": ["fault", "hdr"], "alts": STRUCT, "limit": 300 if quick else None},
         {"proto": "cmp-sign", "n": 3, "t": 2, "kinds": ["fault", "hdr"], "alts": STRUCT, "limit": 30 if quick else 600},
         {"proto": "cmp-keygen", "n": 3, "t": 1, "kinds": ["fault", "hdr"], "alts": STRUCT, "limit": 8 if quick else 200},
     ]
@@ -22,6 +24,7 @@ def plan(quick):
             {"proto": "cmp-presign", "n": 3, "t": 2, "kinds": ["fault", "hdr"], "alts": STRUCT, "limit": 400},
             {"proto": "cmp-presign-online", "n": 3, "t": 2, "kinds": ["fault", "hdr"], "alts": STRUCT, "limit": 100},
             {"proto": "taproot-keygen", "n": 4, "t": 2, "kinds": ["fault", "hdr"], "alts": STRUCT, "limit": 1500},
+            {"proto": "doerner-refresh", "n": 2, "t": 1, "kinds": ["fault", "hdr"], "alts": STRUCT},
         ]
     return p
 
